@@ -203,18 +203,20 @@ pub fn class_of(sc: &Scenario) -> String {
     c.threads.iter().map(|t| t.iter().map(|c| c.short()).collect::<Vec<_>>().join("; ")).collect::<Vec<_>>().join(" || ")
 }
 
-/// flavour ## class ## scenario ## kinds ## signature.  The signature (hash of
-/// the set of bad outcomes over all schedules, both fairness modes) is only
-/// present for fully explored two-thread one-call scenarios.
-pub fn finding_key<F: Flav>(sc: &Scenario, v: &Verdict) -> String {
-    let simple = sc.threads.len() == 2 && sc.calls() == 2 && !v.capped();
+/// flavour ## class ## scenario ## kinds ## signature.  `sc` / `v` are the scenario that was explored and its
+/// verdict; `root` is its locally minimal failing sub-scenario (the scenario itself for two-thread one-call
+/// scenarios), whose call pattern names the class.  The scenario, its anomaly kinds and - when the exploration was
+/// not budget-capped - the signature (hash of the set of bad outcomes over all schedules, both fairness modes) are
+/// those of the explored scenario itself: a scenario that is clean on the reference tree is never excused by a
+/// known finding of one of its parts.
+pub fn finding_key<F: Flav>(sc: &Scenario, v: &Verdict, root: &Scenario) -> String {
     format!(
         "{} ## {} ## {} ## {} ## {}",
         F::NAME,
-        class_of(sc),
+        class_of(root),
         sc.text(),
         v.kinds().join("+"),
-        if simple { format!("sig={:x}", v.signature()) } else { "nosig".to_string() }
+        if !v.capped() { format!("sig={:x}", v.signature()) } else { "nosig".to_string() }
     )
 }
 
@@ -264,6 +266,26 @@ pub fn targeted_scenarios() -> Vec<&'static str> {
         "n=3 init=[(0, 1), (0, 2)] | disconnect(0,1) || disconnect(0,2) || walk(0)",
         "n=3 init=[(1, 0), (2, 0)] | disconnect(1,0) || disconnect(2,0) || q_deg(0)",
         "n=3 init=[(0, 1), (1, 2), (2, 0)] | isolate(0) || q_deg(1); walk(1) || q_deg(2); q_conn(2,0)",
+        // an edge between 0 and 1 exists at every instant but migrates between node 0's two lists while a
+        // try_connect looks for it: the look-up is one critical section today, so try_connect must be refused
+        // (the sixteen "[un]" scenarios run on the undirected flavour only: in the directed one the pairs
+        // connect(0,1) || try_connect(0,1) and try_connect || disconnect are open findings of the reference tree)
+        "[un] n=2 init=[(0, 1)] | connect(0,1); disconnect(0,1) || try_connect(0,1)",
+        "[un] n=2 init=[(0, 1)] | connect(0,1); disconnect(0,1) || try_connect(1,0)",
+        "[un] n=2 init=[(0, 1)] | connect(0,1); disconnect(1,0) || try_connect(0,1)",
+        "[un] n=2 init=[(0, 1)] | connect(0,1); disconnect(1,0) || try_connect(1,0)",
+        "[un] n=2 init=[(0, 1)] | connect(1,0); disconnect(0,1) || try_connect(0,1)",
+        "[un] n=2 init=[(0, 1)] | connect(1,0); disconnect(0,1) || try_connect(1,0)",
+        "[un] n=2 init=[(0, 1)] | connect(1,0); disconnect(1,0) || try_connect(0,1)",
+        "[un] n=2 init=[(0, 1)] | connect(1,0); disconnect(1,0) || try_connect(1,0)",
+        "[un] n=2 init=[(1, 0)] | connect(0,1); disconnect(0,1) || try_connect(0,1)",
+        "[un] n=2 init=[(1, 0)] | connect(0,1); disconnect(0,1) || try_connect(1,0)",
+        "[un] n=2 init=[(1, 0)] | connect(0,1); disconnect(1,0) || try_connect(0,1)",
+        "[un] n=2 init=[(1, 0)] | connect(0,1); disconnect(1,0) || try_connect(1,0)",
+        "[un] n=2 init=[(1, 0)] | connect(1,0); disconnect(0,1) || try_connect(0,1)",
+        "[un] n=2 init=[(1, 0)] | connect(1,0); disconnect(0,1) || try_connect(1,0)",
+        "[un] n=2 init=[(1, 0)] | connect(1,0); disconnect(1,0) || try_connect(0,1)",
+        "[un] n=2 init=[(1, 0)] | connect(1,0); disconnect(1,0) || try_connect(1,0)",
     ]
 }
 
@@ -334,7 +356,7 @@ where
             if msc != sc {
                 rep.count("failing_scenarios_reduced_to_smaller");
             }
-            let key = finding_key::<F>(&msc, &mv);
+            let key = finding_key::<F>(&sc, &v, &msc);
             let what = describe::<F>(&msc, &mv);
             if rc.emit_known {
                 rep.notes.push(serde_json::to_string(&json!({"property":"C17","status":"open","key":key,"what":what})).unwrap());
@@ -356,6 +378,11 @@ where
             if (i as u64) % rc.nshards != rc.shard % rc.nshards.max(1) {
                 continue;
             }
+            let txt = match txt.strip_prefix("[un] ") {
+                Some(_) if F::DIRECTED => continue,
+                Some(t) => t,
+                None => txt,
+            };
             let Some(sc) = Scenario::parse(txt) else {
                 rep.inconclusive.push(format!("targeted scenario does not parse: {}", txt));
                 continue;
@@ -379,7 +406,7 @@ where
             }
             if v.failing() {
                 let (msc, mv) = ck.minimise::<F>(&sc, &v);
-                let key = finding_key::<F>(&msc.canonical(), &mv);
+                let key = finding_key::<F>(&sc, &v, &msc);
                 rep.violation(
                     "C17",
                     key,
@@ -406,7 +433,7 @@ where
     };
     let vd = ck.verdict::<F>(&sc);
     println!("{}", describe::<F>(&sc, &vd));
-    println!("key: {}", finding_key::<F>(&sc, &vd));
+    println!("key: {}", finding_key::<F>(&sc, &vd, &sc));
     vd.failing()
 }
 
